@@ -88,26 +88,28 @@ func dirHashes(dir string) map[string]string {
 
 func TestC11(t *testing.T) {
 	st := statsFor("C11")
-	st.Rule = "a database is built by a generated history under a generated configuration and closed; then a generated fault set is applied from outside: remove object files, add valid object files under fresh uuids (not conflicting on unique paths), remove index entries consistently from schema.json, remove schema.json, make one index internally inconsistent (drop a tuple from one field index only; swap two tuples of different value; index one object twice and its neighbour not at all). Added files are half of the time written the way another tool would (indented, extra unknown member) so that a Repair that rewrites files changes bytes; caller-style uuids (upper-case, non-v4) are used. Oracle: expected divergence computed from sets (uuid-named files vs. object-ids in schema.json). First load and Control report ErrIndexCorrupted iff the sets differ (some error if an index is internally inconsistent; nil on a healthy database of every configuration); Repair returns nil, leaves every object file byte-identical and creates/removes none; afterwards Control is nil and Count, All, Get and a search sweep (every operator x stored values and neighbours on every indexed path) equal predicates evaluated on the decoded file contents; after Close and reopen Control is still nil. Removed schema: Create reports corruption iff files exist, then Repair as above. Non-trivial: fault set with >= 2 kinds, or a cancelling pair, or a boundary shape (all files gone, only extra files, empty collection). Distinct by program hash."
+	st.Rule = "a database is built by a generated history under a generated configuration and closed; then a generated fault set is applied from outside: remove object files, add valid object files under fresh uuids (not conflicting on unique paths), remove index entries consistently from schema.json, remove schema.json, make one index internally inconsistent (drop a tuple from one field index only; swap two tuples of different value; index one object twice and its neighbour not at all), plus two harmless shapes: a backup copy '<uuid><ext>.bak' next to an object file, an object file replaced by a symbolic link to a regular file. Objects may carry value-changing Transform hooks (after Repair the index must reflect what the files hold). Added files are half of the time written the way another tool would (indented, extra unknown member) so that a Repair that rewrites files changes bytes; caller-style uuids (upper-case, non-v4) are used. Oracle: expected divergence computed from sets (uuid-named files vs. object-ids in schema.json). First load and Control report ErrIndexCorrupted iff the sets differ (some error if an index is internally inconsistent; nil on a healthy database of every configuration); Repair returns nil, leaves every object file byte-identical and creates/removes none; afterwards Control is nil and Count, All, Get and a search sweep (every operator x stored values and neighbours on every indexed path) equal predicates evaluated on the decoded file contents; after Close and reopen Control is still nil. Removed schema: Create reports corruption iff files exist, then Repair as above. Non-trivial: fault set with >= 2 kinds, or a cancelling pair, or a boundary shape (all files gone, only extra files, empty collection). Distinct by program hash."
 	st.Assumptions = baseAssumptions()
 	prof := &Profile{
 		Property: "C11", MaxOps: pick(8, 18),
 		W:          map[string]int{"insert": 9, "update": 3, "delete": 2, "many": 2, "reopen": 1},
 		AllowCache: true, AllowCompress: true, AllowAsync: true, AllowLower: true,
 		MaxIndexed: 3, MaxUnique: 1, CasePaths: 1,
-		TinyBias: 55, BigBias: 12, HookBias: 0, RichShape: 15, MaxLeaves: 1,
+		TinyBias: 55, BigBias: 12, HookBias: 12, RichShape: 15, MaxLeaves: 1,
 	}
 	rapid.Check(t, func(rt *rapid.T) {
 		g := NewG(rt, prof)
 		prog := g.Program()
 		var faults []Fault
 		n := g.uni(6, "nfaults")
-		kinds := []string{"rmfile", "rmfile", "addfile", "addfile", "rmentry", "rmentry", "rmschema", "drop1", "swap", "dup1", "rmfile+entry", "rmallfiles"}
+		kinds := []string{"rmfile", "rmfile", "rmfile", "addfile", "addfile", "rmentry", "rmentry", "rmschema", "drop1", "swap", "dup1", "rmfile+entry", "rmallfiles", "sibling", "tosymlink"}
 		for i := 0; i < n; i++ {
 			f := Fault{K: pickU(g, kinds, "faultkind"), Ref: g.uni(64, "fref")}
 			if f.K == "addfile" {
 				f.D = g.Doc()
-				f.D.H = Hooks{}
+				if f.D.H.RejectS != "" || f.D.H.RejectLen != 0 {
+					f.D.H = Hooks{} // files hold valid objects
+				}
 				f.Seed = uint64(1000 + g.uni(1000, "fseed"))
 			}
 			faults = append(faults, f)
@@ -187,14 +189,46 @@ func caseC11(t TB, prog *Program) {
 		}
 		return true
 	}
+	linkDir := e.root + "-links"
+	defer os.RemoveAll(linkDir)
 	for _, f := range faults {
 		switch f.K {
+		case "sibling":
+			// a backup copy next to an object file: one more directory entry, no other object
+			ids := filesNow()
+			if len(ids) == 0 {
+				continue
+			}
+			id := ids[f.Ref%len(ids)]
+			if b, err := os.ReadFile(filepath.Join(dir, id+suffix)); err == nil {
+				os.WriteFile(filepath.Join(dir, id+suffix+".bak"), b, 0600)
+				e.flag("fault-sibling-entry")
+				kinds["sibling"] = true
+			}
+		case "tosymlink":
+			// the object file is a symbolic link to a regular file kept elsewhere
+			ids := filesNow()
+			if len(ids) == 0 {
+				continue
+			}
+			id := ids[f.Ref%len(ids)]
+			os.MkdirAll(linkDir, 0700)
+			if fi, err := os.Lstat(filepath.Join(dir, id+suffix)); err == nil && fi.Mode().IsRegular() {
+				if os.Rename(filepath.Join(dir, id+suffix), filepath.Join(linkDir, id+suffix)) == nil {
+					if err := os.Symlink(filepath.Join(linkDir, id+suffix), filepath.Join(dir, id+suffix)); err != nil {
+						e.failf("harness: %v", err)
+					}
+					e.flag("fault-object-file-is-a-symlink")
+					kinds["tosymlink"] = true
+				}
+			}
 		case "rmfile", "rmfile+entry":
 			ids := filesNow()
 			if len(ids) == 0 {
 				continue
 			}
 			id := ids[f.Ref%len(ids)]
+			os.Remove(filepath.Join(dir, id+suffix+".bak"))
 			os.Remove(filepath.Join(dir, id+suffix))
 			removedFile[id] = true
 			kinds["rmfile"] = true
@@ -204,6 +238,7 @@ func caseC11(t TB, prog *Program) {
 			}
 		case "rmallfiles":
 			for _, id := range filesNow() {
+				os.Remove(filepath.Join(dir, id+suffix+".bak"))
 				os.Remove(filepath.Join(dir, id+suffix))
 				removedFile[id] = true
 				kinds["rmfile"] = true
